@@ -323,7 +323,7 @@ def constructor_case(ctx, idx, rng):
     is_mpo = bool(idx % 2)
     L = int(rng.integers(1, 5))
     d = int(rng.choice([1, 2, 3]))
-    layout = str(rng.choice(['zero', 'unsorted', 'sorted', 'pairs']))
+    layout = str(rng.choice(['zero', 'unsorted', 'sorted', 'pairs', 'huge']))
     qd = _qd(rng, d, layout)
     if layout != 'zero' and d > 1 and not np.any(qd - qd[0]):
         qd[0] = qd[0] + 1
